@@ -185,6 +185,19 @@ def seq_enumerated():
       "write(pick(names, x)[gba[0] - 10 + y % 2]); string s = names[1]; write(s[key[y % 3] - '0']); write(names[idx(y) % 2][names[0].length - 1 - idx(x)]); write(cnames[x % 2][key[idx(y)] - '0']);",
       extra="const byte[] key = ['0', '1', '2'];\nconst string[] cnames = [\"xyz\", \"uvw\"];\nint idx(int v) { return v % 3; }\nstring pick(const string[] a, int v) { return a[v % 2]; }\n")
     T('nested-array-index', "int[] t = [2, 0, 1]; sleep(ga[t[x % 3]]); sleep(gc[t[t[y % 3]]]); ga[t[x % 3]] = gc[t[y % 3]] + t[h(x, x)]; sleep(ga[0] + ga[1] * 10 + ga[2] * 100); write(gba[t[bump(0) % 3]]); gfa[t[y % 3] + 7] = gfa[t[x % 3]]; sleep(gfa[8] is int);")
+    # every kind of string source indexed by every kind of index expression (a string in a register must survive the evaluation of its index)
+    SSRC = [('global', 'gs3'), ('local', 'ls'), ('stack-elem', 'names[x % 2]'), ('const-elem', 'cnames[x % 2]'), ('call', 'pick(names, x)'), ('literal', '"pqr"'), ('param', None)]
+    SIDX = [('var', 'i'), ('local-string', "ls[i] - '0'"), ('global-string', "gks[i] - '0'"), ('bytes', "kb[i] - '0'"), ('call', 'idx(i + 3)'), ('arith', '(i + 1) % 3'), ('ints', 't[i]'),
+            ('nested-elem', "names[1][i] - 'd'"), ('const-elem-string', "cnames[0][i] - 'g'")]
+    for (sn, se), (xn, xe) in itertools.product(SSRC, SIDX):
+        pre = "string ls = \"102\"; string[] names = [\"abc\", \"def\"]; byte[] kb = ['2', '0', '1']; int[] t = [1, 2, 0]; int i = y % 3;"
+        if sn == 'param':
+            T('string-index-%s-%s' % (sn, xn), pre + " look(names[x % 2], ls, names, kb, t, i); look(\"uvw\", ls, names, kb, t, i);",
+              extra="string gs3 = \"mno\";\nstring gks = \"021\";\nconst string[] cnames = [\"ghi\", \"jkl\"];\nint idx(int v) { return v %% 3; }\n"
+                    "empty look(string ps, string ls, const string[] names, const byte[] kb, const int[] t, int i) { write(ps[%s]); }\n" % xe)
+        else:
+            T('string-index-%s-%s' % (sn, xn), pre + " write(%s[%s]); write('.');" % (se, xe),
+              extra="string gs3 = \"mno\";\nstring gks = \"021\";\nconst string[] cnames = [\"ghi\", \"jkl\"];\nint idx(int v) { return v % 3; }\nstring pick(const string[] a, int v) { return a[v % 2]; }\n")
     return out
 
 
@@ -409,6 +422,94 @@ def op_positions():
     T('write-int', "write(a); write('.');")
     T('writeln-int-bool', "writeln(a > b); writeln(b); write('.');")
     T('write-str-arg', "write(s); writeln(s); write(s[0]); sleep(s.length);", sig='string s')
+    return out
+
+
+# --------------------------------------------------------------------------------------
+# use-site matrix: every kind of expression in every place the generator consumes an operand (C01, C03, C05, C15)
+# --------------------------------------------------------------------------------------
+US_PRELUDE = """
+int g = 3;
+byte gb = 7;
+bool gf = true;
+string gs = "glob";
+int[] ga = [1, 2, 0];
+const int[] gc = [2, 0, 1];
+byte[] gba = [1, 0, 2];
+bool[] gfa = [true, false, true, true, false, false, true, false, true, true];
+const int K = 2;
+const byte KB = 1;
+int idf(int v) { return v; }
+int two(int a, int b) { return a * 4 + b; }
+bool pf(int v) { return v > 1; }
+bool andf(bool a, bool b) { return a and b; }
+byte bidf(byte v) { return v; }
+"""
+US_INT = [('lit', '1'), ('local', 'x'), ('local2', 'n'), ('global', 'g'), ('const', 'K'), ('stack-elem', 'a[i]'), ('global-elem', 'ga[i]'), ('const-elem', 'gc[i]'), ('param-elem', 'xs[i]'),
+          ('byte-local', 'b'), ('byte-global', 'gb'), ('byte-elem', 'gba[i]'), ('string-elem', 'gs[i]'), ('str-length', 'gs.length'), ('arr-length', 'a.length'), ('call', 'idf(x)'), ('call2', 'two(i, n)'),
+          ('add', 'x + n'), ('mul-global', 'i * g'), ('neg', '-x'), ('mod', 'x % 3'), ('div', 'x / n'), ('narrow', '(x is byte)'), ('narrow-computed', '((x + 256) is byte)'), ('bool-int', '(t is int)'),
+          ('elem-of-elem', 'ga[gc[i]]'), ('call-elem', 'idf(a[i])'), ('spec', '(idf(x) ?? n)'), ('const-byte', 'KB'), ('byte-call', 'bidf(b)')]
+US_BOOL = [('lit', 'true'), ('local', 't'), ('global', 'gf'), ('elem', 'gfa[i]'), ('stack-elem', 'fa[i]'), ('lt', 'x < n'), ('eq', 'x == n'), ('ge-const', 'x >= -1'), ('not', 'not t'), ('not-cmp', 'not (x < n)'),
+           ('and', 't and x > 0'), ('or', 't or x > 0'), ('call', 'pf(x)'), ('int-bool', '(x is bool)'), ('str-bool', '(gs is bool)'), ('byte-bool', '(b is bool)'), ('and-or', 'x < n and n < 3 or t'),
+           ('not-and', 'not (t and x > 0)'), ('eq-bool', 't == gf'), ('spec', '(pf(x) ?? t)')]
+US_INT_SITES = [
+    ('value', 'sleep({e});'),
+    ('store-index-word', 'a[{e}] = 5; sleep(a[0] + a[1] * 3 + a[2] * 9);'),
+    ('store-index-byte', "ba[{e}] = 'z'; write(ba);"),
+    ('store-index-bool', 'fa[{e}] = x > 0; sleep((fa[0] is int) + (fa[1] is int) * 2 + (fa[2] is int) * 4);'),
+    ('store-index-global', 'ga[{e}] = n; sleep(ga[0] + ga[1] * 3 + ga[2] * 9);'),
+    ('compound-index', 'a[{e}] += n; sleep(a[0] + a[1] * 3 + a[2] * 9); ba[{e}] -= 1; write(ba);'),
+    ('load-index', "sleep(a[{e}]); write(ba[{e}]); sleep(fa[{e}] is int); write(gs[{e}]); sleep(gc[{e}]);"),
+    ('store-value', 'a[1] = {e}; sleep(a[1]); g = {e}; sleep(g); n = {e}; sleep(n);'),
+    ('compound-value', 'a[1] += {e}; sleep(a[1]); g -= {e}; sleep(g); n *= {e}; sleep(n);'),
+    ('vla-length', "int v[({e}) % 4]; write('k'); sleep(v.length); bool w[({e}) % 3 + 7]; w[6] = true; sleep(w.length); sleep(w[6] is int); byte u[(({e}) % 2 + 1) * 3]; u[2] = 'u'; write(u[2]);"),
+    ('call-arg', 'sleep(two({e}, 1)); sleep(two(1, {e})); sleep(two({e}, {e}));'),
+    ('literal-elem', 'int[] q = [1, {e}, 3]; sleep(q[1]); sleep(q[2]);'),
+    ('narrow-init', 'byte nb = ({e}) is byte; write(nb); byte[] q = [({e}) is byte, 9]; write(q);'),
+    ('arith-operand', 'sleep({e} + g); sleep(g - {e}); sleep({e} * {e});'),
+    ('cmp-branch', "if ({e} < n) {{ write('l'); }} else {{ write('g'); }} if (n == {e}) {{ write('e'); }}"),
+    ('spec-operand', 'sleep({e} ?? n); sleep(idf(n) ?? {e});'),
+    ('return', 'sleep(ret(x, n, i));'),
+    ('for-bound', "for (int k = 0; k < {e}; k += 1) {{ write('f'); if (k > 1) {{ break; }} }}"),
+]
+US_BOOL_SITES = [
+    ('value', 'sleep(({e}) is int);'),
+    ('branch', "if ({e}) {{ write('T'); }} else {{ write('F'); }}"),
+    ('while', "while ({e}) {{ write('w'); break; }} write('.');"),
+    ('not-branch', "if (not ({e})) {{ write('N'); }} else {{ write('Y'); }}"),
+    ('defeat-undo', "try {{ write('a'); !truth_is_defeat({e}); write('b'); }} undo {{ write('c'); }}"),
+    ('defeat-stop', "try {{ write('a'); !truth_is_defeat({e}); write('b'); }} stop {{ write('c'); }}"),
+    ('store', 'fa[1] = {e}; sleep((fa[0] is int) + (fa[1] is int) * 2 + (fa[2] is int) * 4); gf = {e}; sleep(gf is int);'),
+    ('literal-elem', 'bool[] q = [true, {e}, false]; sleep((q[0] is int) + (q[1] is int) * 2 + (q[2] is int) * 4);'),
+    ('call-arg', 'sleep(andf({e}, true) is int); sleep(andf(t, {e}) is int);'),
+    ('logic-operand', 'sleep((({e}) and gf) is int); sleep((gf or ({e})) is int);'),
+    ('return', 'sleep(bret(x, n, i) is int);'),
+    ('write', 'write({e});'),
+]
+
+
+def usesite_matrix():
+    out = []
+
+    def mk(name, kinds, sites, eb):
+        for (kn, e), (sn, site) in itertools.product(kinds, sites):
+            if sn == 'spec-operand' and ('??' in e or kn in ('byte-local', 'byte-global', 'byte-elem', 'string-elem', 'narrow', 'narrow-computed', 'const-byte', 'byte-call')):
+                continue        # nested speculation / operands of different types are rejected by the front end
+            if sn.startswith('defeat-') and '??' in e:
+                continue        # no speculation inside a try body
+            body = site.format(e=e)
+            needs_spec_ctx = '??' in body
+            extra = ''
+            if sn == 'return':
+                if '??' in e:
+                    continue        # ?? is only allowed in you-functions
+                extra = ('%s(int x, int n, int i) { int[] a = [0, 2, 1]; int[] xs = [1, 0, 2]; byte b = 2; bool t = x > n; bool[] fa = [true, false, true]; return %s; }\n'
+                         % ('int ret' if eb == 'int' else 'bool bret', e))
+            src = (US_PRELUDE + extra + 'empty @is_you(int x, int n, int i, int[] xs) {\n int[] a = [0, 2, 1]; byte[] ba = [%s, %s, %s]; bool[] fa = [true, false, true]; byte b = 2; bool t = x > n;\n %s\n write(\'.\');\n}\n'
+                   % ("'p'", "'q'", "'r'", body))
+            out.append(C('usesite/%s/%s/%s' % (name, sn, kn), src, xs=3))
+    mk('int', US_INT, US_INT_SITES, 'int')
+    mk('bool', US_BOOL, US_BOOL_SITES, 'bool')
     return out
 
 # --------------------------------------------------------------------------------------
